@@ -334,7 +334,10 @@ def run_case(case, ctx):
         alts = [0.0, -0.6 - 0.1 * j, 1e-10 * (1 + j)]
         # both for two-leaf programs of the thorough tier; otherwise one of the two per part, alternating with the
         # part index and rotated by the seed (keeps the thorough tier inside its time budget)
-        dims.append(("scale:" + nm, None, alts if (nleaf == 2 and not ctx.quick) else [ctx.rot(alts, j)]))
+        pick = [ctx.rot(alts, j)]
+        if nm in product_scales and pick[0] >= 0.0:
+            pick.append(alts[1])        # a product nested in a sum always gets the negative scale as well
+        dims.append(("scale:" + nm, None, alts if (nleaf == 2 and not ctx.quick) else pick))
     dims.append(("dim", "1d", ["2d"]))
     if nleaf >= 3:
         # up to three dispersed size parameters (2 points each) in EVERY part at once: the mixture's total number of
